@@ -1,7 +1,7 @@
 (* Extraction for C09: generated arithmetic + hand models.  ExtrOcamlBasic only. *)
 From Coq Require Import ZArith List Extraction ExtrOcamlBasic.
 From MomoCommon Require Import GenPrelude.
-From C09 Require Gen_UIntMath Gen_MemPoolConst Gen_MemPool PoolU32Prims Gen_MemPoolUInt32 Gen_MemPoolData PoolBlkPrims Gen_MemPoolBlk Gen_MemPoolMerge PoolLayout PoolLinks PoolConc.
+From C09 Require Gen_UIntMath Gen_MemPoolConst Gen_MemPool PoolU32Prims Gen_MemPoolUInt32 Gen_MemPoolData PoolBlkPrims Gen_MemPoolBlk Gen_MemPoolMerge Gen_MemPoolDel Gen_MemPoolNewBuf PoolLayout PoolLinks PoolConc.
 Separate Extraction
   Gen_UIntMath.Ceil Gen_MemPoolConst.GetBlockAlignment Gen_MemPoolConst.CorrectBlockSize Gen_MemPoolConst.CheckBlockCount Gen_MemPoolConst.CheckBlockAlignment
   Gen_MemPool.pvUseCache Gen_MemPool.pvGetAlignmentAddend Gen_MemPool.pvGetBufferSize0 Gen_MemPool.pvGetBufferSize1
@@ -17,4 +17,5 @@ Separate Extraction
   Gen_MemPoolUInt32.GetRealPointer Gen_MemPoolUInt32.pvGetBufferSize Gen_MemPoolUInt32.pvNewBuffer
   Gen_MemPoolUInt32.Allocate Gen_MemPoolUInt32.Deallocate Gen_MemPoolUInt32.DeallocateAll Gen_MemPoolUInt32.nullPtr
   PoolU32Prims.store32 PoolU32Prims.load32 Gen_MemPoolData.Swap Gen_MemPool.pvCheckParams Gen_MemPoolBlk.pvNewBlock Gen_MemPoolMerge.MergeFrom
-  PoolConc.pvNewBlock PoolConc.new_buffer PoolConc.hd0.
+  PoolConc.pvNewBlock PoolConc.new_buffer PoolConc.hd0 PoolConc.pvDeleteBlock
+  Gen_MemPoolDel.pvMoveBufferToHead Gen_MemPoolDel.pvDeleteBuffer Gen_MemPoolDel.pvDeleteBlock3 Gen_MemPoolNewBuf.pvNewBuffer.
